@@ -196,6 +196,9 @@ def hash_file(
     info: Optional[dict] = None,
 ) -> tuple["Meta", "HashInfo"]:
     if state:
+        # NOTE: stat the file before reading it, so that the hash is saved
+        # against the version that was hashed and not against a later one
+        info = info or fs.info(path)
         meta, hash_info = state.get(path, fs, info=info)
         if meta is not None and hash_info is not None and hash_info.name == name:
             return meta, hash_info
